@@ -1,4 +1,5 @@
 CONSTANTS Chars <- CharsQuick
+          DedupByConcat = FALSE
           MaxWord = 2
           MaxDict = 3
           MaxBound = 2
